@@ -86,6 +86,13 @@ def tok(x):
     return '%.16E' % x
 
 
+def is_alias(n):
+    """femio renames a variable whose name is one of its alias keys (config.DICT_ALIASES, e.g. 'vf' -> 'VF',
+    'disp' -> 'DISPLACEMENT') when it is stored: such reserved names are not arbitrary user names"""
+    from femio import config
+    return config.DICT_ALIASES.get(n, n) != n
+
+
 def rand_names(rnd, k, pool):
     out = []
     while len(out) < k:
@@ -93,7 +100,7 @@ def rand_names(rnd, k, pool):
             n = rnd.choice(pool)
         else:
             n = rnd.choice(ALNUM[:52]) + ''.join(rnd.choice(ALNUM) for _ in range(rnd.randint(0, 11)))
-        if n in out or n in NA or 'TOTALTIME' in n:
+        if n in out or n in NA or 'TOTALTIME' in n or is_alias(n):
             continue
         out.append(n)
     return out
